@@ -5,6 +5,8 @@ package harness
 
 import (
 	"fmt"
+	"io"
+	"log"
 	"net"
 	"os"
 	"sort"
@@ -16,6 +18,7 @@ import (
 	"github.com/omec-project/upf-epc/zzverif/vsim"
 	"github.com/omec-project/upf-epc/zzverif/vsimenv"
 	"github.com/prometheus/client_golang/prometheus"
+	pfcp "github.com/wmnsk/go-pfcp"
 	"github.com/wmnsk/go-pfcp/message"
 	"go.uber.org/zap"
 	"go.uber.org/zap/zapcore"
@@ -106,6 +109,8 @@ func InstallLoggers() {
 		return
 	}
 	loggersInstalled = true
+	log.SetOutput(io.Discard)
+	pfcp.DisableLogging() // go-pfcp logs unknown message types to stderr
 	var core zapcore.Core = zapcore.NewNopCore()
 	if os.Getenv("UPFSIM_LOG") != "" {
 		enc := zap.NewDevelopmentEncoderConfig()
